@@ -84,13 +84,19 @@ def decFlagBits : Nat → Parser Bits
   | fuel+1 => Parser.bind (readBits 7) fun b => Parser.bind readBit fun c =>
       if c then Parser.bind (decFlagBits fuel) fun rest => Parser.pure (b ++ rest) else Parser.pure b
 
-def flagsOfBits (bs : Bits) : Parser Flags :=
-  if (bs.drop 6).any id then Parser.compat
-  else Parser.pure {
+/-- the six known flags from the flag bits; `none` iff a bit this version does not define is set -/
+def flagsFields (bs : Bits) : Option Flags :=
+  if (bs.drop 6).any id then none
+  else some {
     use5 := bs.getD 0 false
     order := (bs.getD 1 false).toNat * 4 + (bs.getD 2 false).toNat * 2 + (bs.getD 3 false).toNat
     minCount := bs.getD 4 false
     gcds := bs.getD 5 false }
+
+def flagsOfBits (bs : Bits) : Parser Flags :=
+  match flagsFields bs with
+  | none => Parser.compat
+  | some f => Parser.pure f
 
 def decFlags : Parser Flags := fun s =>
   (Parser.bind (decFlagBits (s.length / 8 + 1)) flagsOfBits) s
